@@ -24,6 +24,7 @@ type Runner struct {
 	NRestarts, NRejected, NApplied int
 	Flags                          map[string]bool
 	ghosts                         map[string][]string
+	Excluded                       map[string]int
 	LastErr                        error // error returned by the engine for the last Step (nil if it succeeded)
 }
 
@@ -44,7 +45,7 @@ func NewRunner(seed int64) (*Runner, error) {
 		cleanup()
 		return nil, err
 	}
-	return &Runner{Dir: filepath.Join(dir, "data"), E: e, M: NewModel(), cleanup: cleanup, Flags: map[string]bool{}}, nil
+	return &Runner{Dir: filepath.Join(dir, "data"), E: e, M: NewModel(), cleanup: cleanup, Flags: map[string]bool{}, Excluded: map[string]int{}}, nil
 }
 
 func (r *Runner) Close() {
@@ -75,7 +76,31 @@ func (r *Runner) Restart() error {
 	}
 	r.E = e
 	r.NRestarts++
+	r.adoptInt8AfterRestart()
 	return nil
+}
+
+// Known finding "int8-restart": an int8 index re-trains its quantiser range at restart (on a
+// map-order-dependent vector, or on already de-quantised values after a compaction), so values
+// move by more than one step. While that finding is listed, the model adopts the values an int8
+// index reads back after a restart (counted in Excluded) and keeps checking everything else.
+func (r *Runner) adoptInt8AfterRestart() {
+	if !verifkit.Known("int8-restart") {
+		return
+	}
+	for name, mi := range r.M.Idx {
+		if mi.Prec != "int8" {
+			continue
+		}
+		for id, mv := range mi.Live {
+			vd, err := r.E.VGet(name, id)
+			if err != nil || len(vd.Vector) != len(mv.Base) {
+				continue
+			}
+			mv.Base = append([]float32(nil), vd.Vector...)
+			r.Excluded["int8-restart"]++
+		}
+	}
 }
 
 func (r *Runner) probeIDs() map[string][]string {
@@ -433,7 +458,14 @@ func (r *Runner) Step(op Op) string {
 		}
 		vec := op.Vec
 		if len(vec) == 0 {
-			vec = make([]float32, mi.liveDim())
+			d := mi.liveDim()
+			if d == 0 {
+				d = mi.Dim
+			}
+			vec = make([]float32, d)
+		}
+		if mi.Dim == 0 {
+			mi.Dim = len(vec)
 		}
 		meta, msg := r.adoptMemoryMeta(op.Idx, op.ID, op.Meta, true, w0, w1)
 		if msg != "" {
@@ -449,12 +481,18 @@ func (r *Runner) Step(op Op) string {
 		}
 		d := mi.liveDim()
 		if d == 0 {
+			d = mi.Dim
+		}
+		if d == 0 {
 			for _, it := range op.Items {
 				if len(it.Vec) > 0 {
 					d = len(it.Vec)
 					break
 				}
 			}
+		}
+		if mi.Dim == 0 {
+			mi.Dim = d
 		}
 		for _, it := range op.Items {
 			vec := it.Vec
